@@ -103,6 +103,7 @@ func c16(r *Report) {
 	r.Gate(Gate{ID: "C16.client.background-validated-only-after-own-verification", Fn: bv, Effect: keep, Check: ErrCheck(DynField("verifier"))})
 	r.Gate(Gate{ID: "C16.client.background-validated-parsed", Fn: bv, Effect: keep, Check: ErrCheck(Fn(vcPkg, "", "ParseVerifiablePresentation"))})
 	gormTxDiscipline(r, "C16.sql.tx-handle", "discovery")
+	c16ValidatedByPrimaryKey(r)
 	se := p.Func(d, "sqlStore", "search")
 	appendEff := InstrEffect("append to search results", func(in ssa.Instruction) bool {
 		c, ok := in.(*ssa.Call)
@@ -352,4 +353,71 @@ func c16SearchValidatedFilter(r *Report, se *ssa.Function) {
 		}
 	}
 	r.OK(key, rule, r.P.Pos(where.Pos()), "filter post-dominates the entry under allowUnvalidated=false", true)
+}
+
+// c16ValidatedByPrimaryKey: the validated flag is set on exactly the rows this node verified: the UPDATE is keyed on the
+// row's primary key (id), taken from the verified record — not on an attribute several rows can share (the VP's jti,
+// the subject, the service).
+func c16ValidatedByPrimaryKey(r *Report) {
+	p := r.P
+	rule := "ARG: updateValidated sets validated = true with the condition \"id = ?\" on the primary key of the verified record"
+	key := "C16.store.validated-flag-by-primary-key"
+	fn := p.Func("discovery", "sqlStore", "updateValidated")
+	if fn == nil {
+		r.Lost(key, rule, "sqlStore.updateValidated not found")
+		return
+	}
+	n := 0
+	for _, c := range CallsDeep(fn, Fn(gormPkg, "DB", "Update")) {
+		if col, ok := ConstString(StripConv(CallArg(c.Common(), 0))); !ok || col != "validated" {
+			continue
+		}
+		n++
+		// walk the fluent chain back to the Where
+		var where *ssa.Call
+		v := CallArg(c.Common(), -1)
+		for i := 0; i < 8 && v != nil; i++ {
+			call, ok := StripConv(v).(*ssa.Call)
+			if !ok {
+				break
+			}
+			if Fn(gormPkg, "DB", "Where").M(call.Common()) {
+				where = call
+				break
+			}
+			v = CallArg(call.Common(), -1)
+		}
+		if where == nil {
+			r.Bad(key, rule, p.Pos(c.Pos()), "the validated flag is updated without a Where condition in the same statement")
+			return
+		}
+		q := StripConv(CallArg(where.Common(), 0))
+		if mi, ok := q.(*ssa.MakeInterface); ok {
+			q = mi.X
+		}
+		qs, _ := ConstString(q)
+		if strings.Join(strings.Fields(qs), " ") != "id = ?" {
+			r.Bad(key, rule, p.Pos(where.Pos()), "the condition is \""+qs+"\"")
+			return
+		}
+		els := VariadicElems(where)
+		if len(els) != 1 {
+			r.Bad(key, rule, p.Pos(where.Pos()), "unexpected number of condition arguments")
+			return
+		}
+		a := StripConv(els[0])
+		if mi, ok := a.(*ssa.MakeInterface); ok {
+			a = mi.X
+		}
+		if !FieldV("presentationRecord", "ID").M(a) {
+			r.Bad(key, rule, p.Pos(where.Pos()), "the key value is "+AccessPath(a, 0)+", not the record's ID")
+			return
+		}
+	}
+	r.Sites += n
+	if n == 0 {
+		r.Lost(key, rule, "no Update(\"validated\", …) in updateValidated")
+		return
+	}
+	r.OK(key, rule, p.Pos(fn.Pos()), fmt.Sprintf("%d update(s), keyed on record.ID", n), true)
 }
